@@ -208,8 +208,13 @@ def reader_config_check(ctx):
     n = 0
     ents = {b"a": IndexEntry((1, 2), (3, 4), 5, 6, 0o100644, 7, 8, 9, b"11" * 20, 0, 0),
             b"dir/b": IndexEntry((1, 2), (3, 4), 5, 6, 0o100755, 7, 8, 9, b"22" * 20, 0, 0)}
-    for cfg_name, cfg in (("default", []), ("feature.manyFiles=true", [((b"feature",), b"manyFiles", b"true")]),
-                          ("index.skipHash=true", [((b"index",), b"skipHash", b"true")])):
+    cfgs = []
+    for mf in ("unset", "true", "false"):
+        for sh in ("unset", "true", "false"):
+            cfgs.append((f"feature.manyFiles={mf} index.skipHash={sh}",
+                         ([((b"feature",), b"manyFiles", mf.encode())] if mf != "unset" else [])
+                         + ([((b"index",), b"skipHash", sh.encode())] if sh != "unset" else [])))
+    for cfg_name, cfg in cfgs:
         for wsk in (False, True):
             rd = os.path.join(d, f"r{n}")
             n += 1
@@ -554,6 +559,111 @@ def check_hist_case(W, out):
     return r
 
 
+# --------------------------------------------------------------------------- repository configuration
+def conf_str(cf):
+    return f"feature.manyFiles={cf['mf']} index.skipHash={cf['sh']} index.version={cf['iv'] or 'unset'}"
+
+
+def conf_repo(root, cf):
+    """Repo.init + the configuration of the case (unset = not written)."""
+    from dulwich.repo import Repo
+    os.makedirs(root)
+    repo = Repo.init(root)
+    c = repo.get_config()
+    if cf["mf"] != "unset":
+        c.set((b"feature",), b"manyFiles", cf["mf"].encode())
+    if cf["sh"] != "unset":
+        c.set((b"index",), b"skipHash", cf["sh"].encode())
+    if cf["iv"]:
+        c.set((b"index",), b"version", str(cf["iv"]).encode())
+    c.write_to_path()
+    repo.close()
+    return Repo(root)
+
+
+def check_conf_case(W, out):
+    """A TLC-enumerated configuration (feature.manyFiles x index.skipHash x index.version): what
+    Repo.open_index().write() and porcelain.add write (trailer kind per the specification's precedence
+    rule, entries, version), what the configured reader reads back and refuses, what git lists."""
+    from dulwich import porcelain
+    r = {"fails": [], "drift": None, "mach": None, "execs": 0, "damage": 0}
+    cf, expect, want = out["cf"], out["expect"], L.render(out["fields"])
+    want_trailer = "zeros" if out["skip"] else "sha1"
+    root = W.path("cf")
+    # the specification's version rule against git (2.39.5 knows feature.manyFiles -> version 4 and
+    # index.version; it does not know index.skipHash, so the trailer rule has no git oracle here)
+    if W.git:
+        gi = W.path("cg")
+        argv = ["git"] + [x for k, v in (("feature.manyFiles", cf["mf"]), ("index.version", str(cf["iv"] or "unset"))) if v != "unset" for x in ("-c", f"{k}={v}")]
+        lines = b"".join(b"%o %s %d\t%s\0" % (L.limbs_to_int(e["mode"]), L.runs_to_bytes(e["sha"]).hex().encode(), e["stage"], L.runs_to_bytes(e["name"]))
+                         for e in out["ins"])
+        W.git.run(argv + ["update-index", "-z", "--index-info"], index=gi, stdin=lines)
+        with open(gi, "rb") as f:
+            gv = struct.unpack(">I", f.read(8)[4:])[0]
+        os.unlink(gi)
+        if gv != cf["gitv"]:
+            r["mach"] = f"git writes index version {gv} under {conf_str(cf)}, the specification says {cf['gitv']}"
+            return r
+    try:
+        repo = conf_repo(root, cf)
+        ip = repo.index_path()
+        idx = repo.open_index()
+        L.dw_fill(idx, out["ins"])
+        idx.write()
+        r["execs"] += 1
+        with open(ip, "rb") as f:
+            b = f.read()
+        if trailer_status(b) != want_trailer:
+            r["fails"].append(("Checksum(config)", f"Repo.open_index().write() under {conf_str(cf)} writes a {trailer_status(b)} trailer, "
+                               f"the configuration asks for {want_trailer} (an explicit index.skipHash decides; feature.manyFiles only sets the default)"))
+        try:
+            rb = L.dw_items_abs(repo.open_index().items())
+            if not same_set(rb, expect):
+                r["fails"].append(("RoundTrip(config)", f"Repo.open_index() under {conf_str(cf)} reads different entries"))
+        except Exception as e:  # noqa: BLE001
+            r["fails"].append(("RoundTrip(config)", f"Repo.open_index() under {conf_str(cf)} raised {exc_name(e)}: {e}"))
+        if W.git:
+            gl, err = W.git.ls(ip)
+            if gl != expect:
+                r["fails"].append(("GitLists(config)", f"git ls-files under {conf_str(cf)}: {err if gl is None else 'different entries'}"))
+        if b != want and not r["fails"]:
+            r["drift"] = (f"Repo.open_index().write() under {conf_str(cf)} wrote version {struct.unpack('>I', b[4:8])[0]}, "
+                          f"specified {out['effv']}" if b[4:8] != want[4:8] else f"file differs from the specified layout under {conf_str(cf)}")
+        # the same through the porcelain, on a second path, then damage
+        with open(os.path.join(root, "f.txt"), "wb") as f:
+            f.write(b"content\n")
+        porcelain.add(repo, paths=[os.path.join(root, "f.txt")])
+        r["execs"] += 1
+        with open(ip, "rb") as f:
+            b2 = f.read()
+        pj = L.proj_parse(b2)
+        if trailer_status(b2) != want_trailer:
+            r["fails"].append(("Checksum(config, porcelain.add)", f"porcelain.add under {conf_str(cf)} leaves a {trailer_status(b2)} trailer, "
+                               f"the configuration asks for {want_trailer}"))
+        if not pj["ok"] or sorted(L.entry_key(e) for e in pj["entries"]) != sorted([L.entry_key(e) for e in expect] + [(b"f.txt", 0)]):
+            r["fails"].append(("RoundTrip(config, porcelain.add)", f"index after porcelain.add under {conf_str(cf)}: {pj['why'] or [L.entry_key(e) for e in pj['entries']]}"))
+        if want_trailer == "sha1" and trailer_status(b2) == "sha1":
+            for off in (13, 60, len(b2) // 2, len(b2) - 25):
+                bad = bytearray(b2)
+                bad[off] ^= 0x20
+                with open(ip, "wb") as f:
+                    f.write(bad)
+                r["damage"] += 1
+                try:
+                    repo.open_index()
+                except Exception:  # noqa: BLE001
+                    continue
+                r["fails"].append(("ChecksumDetects(config)", f"byte {off} damaged; Repo.open_index() under {conf_str(cf)} accepts the index silently"))
+                break
+        repo.close()
+    except MachineryError:
+        raise
+    except Exception as e:  # noqa: BLE001
+        r["fails"].append((f"WriteRaises({exc_name(e)})", f"under {conf_str(cf)}: {exc_name(e)}: {e}"))
+    shutil.rmtree(root, ignore_errors=True)
+    return r
+
+
 # --------------------------------------------------------------------------- mode R: pool plumbing
 _W = None
 
@@ -588,7 +698,9 @@ def _run_blocks(args):
         key = _case_key(out)
         dmg = damage_mod and (zlib.crc32(b.encode()) % damage_mod == 0)
         hist = out["h"]["hist"]
-        r = check_hist_case(W, out) if hist else check_exts_case(W, out) if out["exts"] else check_case(W, out, do_damage=dmg)
+        conf = out["cf"]["on"]
+        r = check_conf_case(W, out) if conf else check_hist_case(W, out) if hist else check_exts_case(W, out) if out["exts"] \
+            else check_case(W, out, do_damage=dmg)
         res["execs"] += r["execs"]
         res["damage"] += r["damage"]
         if r["mach"]:
@@ -612,8 +724,12 @@ def _run_blocks(args):
             if hist:
                 keep_out = out
                 key = (key[0], key[1], key[2] | {(b"\0history " + edits_str(out["h"]["eds"]).encode(), out["h"]["bv"])})
+            if conf:
+                keep_out = out
+                key = (key[0], key[1], key[2] | {(b"\0config " + conf_str(out["cf"]).encode(), 0)})
             res["fail"].append({"key": (key[0], key[1], sorted(key[2])), "effv": out["effv"], "clauses": clauses,
                                 "hist": (f"history base={compact(out['h']['bins'], 6)} edits={edits_str(out['h']['eds'])}" if hist else None),
+                                "conf": conf_str(out["cf"]) if conf else None,
                                 "ents": [{k2: e[k2] for k2 in e} for e in out["ins"]] if len(out["ins"]) <= 3 else None,
                                 "out": keep_out, "exts": len(out["exts"])})
     return res
@@ -706,6 +822,8 @@ def report_family_failures(ctx, fam, fails):
             sig, feats = signature(cl, f["effv"], ents, extra)
             if f.get("hist"):
                 sig, feats = f"dulwich/index.py:Index.write|{cl}|v{f['effv']} {f['hist']}", ""
+            if f.get("conf"):
+                sig, feats = f"dulwich/repo.py:Repo.open_index|{cl}|{f['conf']}", ""
             if cl == SHORT_TRAILER:
                 sig, feats = SHORT_TRAILER_SIG, ""
             report(ctx, sig, f"[{fam}] {cl}: {detail[:600]}",
@@ -983,7 +1101,7 @@ def _gitbuild_blocks(args):
     for b in blocks:
         o = L._parse_block(b)
         tid += 2
-        if o is None or not o["ins"] or o["exts"]:
+        if o is None or not o["ins"] or o["exts"] or o["cf"]["on"]:
             continue
         if o["h"]["hist"]:
             # the enumerated history on a base index that git built (what git can be told of it)
@@ -1183,7 +1301,7 @@ def consts(fam, maxkeys, namemask=4095, defect="none"):
 
 FAMILIES = {
     "quick": [("quick", 2, 29)],
-    "thorough": [("names", 2, 13), ("namesq", 3, 37), ("names3", 3, 37), ("flags", 2, 3), ("stat", 2, 3), ("exts", 3, 0), ("hist", 0, 0)],
+    "thorough": [("names", 2, 13), ("namesq", 3, 37), ("names3", 3, 37), ("flags", 2, 3), ("stat", 2, 3), ("exts", 3, 0), ("hist", 0, 0), ("conf", 0, 0)],
 }
 GITBUILD_FROM = {"quick": ["quick"], "thorough": ["names", "namesq", "flags", "hist"]}
 
@@ -1209,6 +1327,10 @@ def run(ctx):
     ctx.add_tlc("IndexFmt_neg_stalestage.cfg (negative control: written stage = slot OR stage bits carried by the entry object)", r, require_ok=False)
     if "StageFromSlot" not in r.violated:
         raise MachineryError("negative control IndexFmt_neg_stalestage.cfg did not break StageFromSlot")
+    r = tlc.run("IndexFmt.tla", "IndexFmt_neg_manyfilesforces.cfg", workers=4, timeout=600)
+    ctx.add_tlc("IndexFmt_neg_manyfilesforces.cfg (negative control: feature.manyFiles overrides an explicit index.skipHash=false)", r, require_ok=False)
+    if "ConfInv" not in r.violated:
+        raise MachineryError("negative control IndexFmt_neg_manyfilesforces.cfg did not break ConfInv")
     r = tlc.run("IndexFmt.tla", "IndexFmt_neg_readerskips.cfg", workers=4, timeout=600)
     ctx.add_tlc("IndexFmt_neg_readerskips.cfg (negative control: a reader configured with skipHash ignores the trailer)", r, require_ok=False)
     if "ChecksumInv" not in r.violated:
@@ -1235,6 +1357,8 @@ def run(ctx):
         "times are within 0..2^32-1 seconds; float times are multiples of 1/4 s (exactly representable); uid/gid/mode < 2^32",
         "entry sets are legal index contents (unique (path, stage), no path both merged and unmerged, no empty or NUL-containing path)",
         "split indexes (link extension + sharedindex) are outside the property's quantifier and not exercised",
+        "git 2.39.5 ignores index.skipHash (added in 2.40): which trailer a configuration asks for is judged against the specification's "
+        "precedence rule (repo-settings.c: explicit index.skipHash wins over feature.manyFiles) only; the version rule is validated against git",
     ]
     return ctx.finish(exhaustive=False)
 
@@ -1257,7 +1381,9 @@ def replay(ctx, path):
             print("   entry:", L.describe(e))
         if out["h"]["hist"]:
             print("  history: base", [L.describe(e) for e in out["h"]["bins"]][::-1], "\n  edits:", edits_str(out["h"]["eds"]))
-        r = check_hist_case(W, out) if out["h"]["hist"] else check_exts_case(W, out) if out["exts"] \
+        if out["cf"]["on"]:
+            print("  configuration:", conf_str(out["cf"]))
+        r = check_conf_case(W, out) if out["cf"]["on"] else check_hist_case(W, out) if out["h"]["hist"] else check_exts_case(W, out) if out["exts"] \
             else check_case(W, out, do_damage=obj["clause"].startswith("ChecksumDetects"))
         for cl, d in r["fails"]:
             print(f"  FAIL {cl}: {d[:700]}")
